@@ -47,6 +47,7 @@ type Thread struct {
 	name      string
 	depth     int
 	yielding  bool
+	waitSeq   int
 }
 
 type handoff struct {
@@ -56,20 +57,21 @@ type handoff struct {
 }
 
 type Sched struct {
-	p        *Path
-	threads  []*Thread
-	cur      *Thread
-	finished chan string
-	killed   bool
-	wg       sync.WaitGroup
-	points   int
-	switches int
-	preempts int
-	timers   []*Timer
-	nchan    int
-	endOnce  sync.Once
-	mutexes  map[*Value]*mutexState
-	wgs      map[*Value]*int
+	p           *Path
+	threads     []*Thread
+	cur         *Thread
+	finished    chan string
+	killed      bool
+	wg          sync.WaitGroup
+	points      int
+	switches    int
+	preempts    int
+	timers      []*Timer
+	nchan       int
+	endOnce     sync.Once
+	mutexes     map[*Value]*mutexState
+	wgs         map[*Value]*int
+	waitCounter int
 }
 
 type mutexState struct {
@@ -337,17 +339,22 @@ func (s *Sched) newChan(capacity int) *ChanObj {
 
 // partner finds a blocked thread (≠ th) registered on ch with the opposite direction.
 func (s *Sched) partner(th *Thread, ch *ChanObj, wantSend bool) (*Thread, int) {
+	var best *Thread
+	bi := -1
 	for _, t := range s.threads {
 		if t == th || t.done || t.handoff != nil {
 			continue
 		}
 		for i, c := range t.waitCases {
 			if c.ch == ch && c.send == wantSend {
-				return t, i
+				if best == nil || t.waitSeq < best.waitSeq {
+					best, bi = t, i
+				}
+				break
 			}
 		}
 	}
-	return nil, -1
+	return best, bi
 }
 
 func (s *Sched) caseReady(th *Thread, c selCase) bool {
@@ -394,6 +401,11 @@ func (s *Sched) doCase(th *Thread, c selCase, zero Value) (Value, bool) {
 	if len(c.ch.buf) > 0 {
 		v := c.ch.buf[0]
 		c.ch.buf = c.ch.buf[1:]
+		// Go semantics: a receive from a full buffered channel completes the longest-waiting blocked send at once
+		if t, i := s.partner(th, c.ch, true); t != nil && len(c.ch.buf) < c.ch.cap {
+			c.ch.buf = append(c.ch.buf, t.waitCases[i].val)
+			t.handoff = &handoff{caseIdx: i, ok: true}
+		}
 		return v, true
 	}
 	if c.ch.cap == 0 {
@@ -413,6 +425,8 @@ func (s *Sched) doCase(th *Thread, c selCase, zero Value) (Value, bool) {
 func (s *Sched) selectOp(th *Thread, cases []selCase, hasDefault bool, zeros []Value) (int, Value, bool) {
 	th.waitCases = cases
 	th.handoff = nil
+	s.waitCounter++
+	th.waitSeq = s.waitCounter
 	anyReady := func() bool {
 		if th.handoff != nil {
 			return true
